@@ -459,7 +459,7 @@ def run(ctx):
         if n.startswith("MISMATCH"):
             mismatches.append({"what": n})
     # failures of the known class first need not hide others: order so that a non-finding failure is reported first
-    failures.sort(key=lambda r: 1 if r.get("finding") else 0)
+    failures.sort(key=lambda r: (1 if r.get("finding") else 0, len(r["scenario"].get("traced", r["scenario"].get("defs", [])))))
 
     dist = {"scenarios_live": sum(1 for s in scs if s["kind"] == "live"),
             "scenarios_direct": sum(1 for s in scs if s["kind"] == "direct"),
